@@ -462,11 +462,17 @@ impl Persister {
 }
 impl Persist<TapSigner> for Persister {
 	fn persist_new_channel(&self, _n: MonitorName, m: &ChannelMonitor<TapSigner>) -> ChannelMonitorUpdateStatus {
+		if self.dead.load(Ordering::SeqCst) {
+			return ChannelMonitorUpdateStatus::InProgress;
+		}
 		let st = self.record(m.channel_id(), None, m);
 		self.log.push(Ev::PersistNew { node: self.node, chan: m.channel_id(), update_id: m.get_latest_update_id(), in_progress: st == ChannelMonitorUpdateStatus::InProgress });
 		st
 	}
 	fn update_persisted_channel(&self, _n: MonitorName, u: Option<&ChannelMonitorUpdate>, m: &ChannelMonitor<TapSigner>) -> ChannelMonitorUpdateStatus {
+		if self.dead.load(Ordering::SeqCst) {
+			return ChannelMonitorUpdateStatus::InProgress;
+		}
 		let st = self.record(m.channel_id(), u.map(|u| u.update_id), m);
 		self.log.push(Ev::PersistUpdate { node: self.node, chan: m.channel_id(), update_id: u.map(|u| u.update_id), latest: m.get_latest_update_id(), in_progress: st == ChannelMonitorUpdateStatus::InProgress });
 		st
